@@ -59,3 +59,16 @@ PROPS["C14"] = dict(
     trusted_base=["modelled, not verified: container/list and the Go map (as a node list with identities + association list), sync.RWMutex (operations atomic)"],
     assumptions=["cache operations are atomic (they run under the cache mutex); concurrency is C03's subject"],
 )
+
+PROPS["C11"] = dict(
+    n=dict(quick=6000, thorough=100000),
+    consts=[],
+    theorems=["C11_total", "C11_normal_form", "C11_reg_lookup", "C11_registered_path", "C11_classes", "C11_reach", "C11_shape", "C11_strict_distinguishes"],
+    rule="case = (StrictLastSlash, UseEncodedPath, 0..3 nested group prefixes, registered static path, request path as decoded and escaped "
+         "string) over the alphabet {/ space tab . a b %2F %20 U+00A0}; request paths are mostly re-spellings / single edits of the registered "
+         "path. Observed: Route.Path(), Router.Match hit, ServeHTTP status. Non-trivial = distinct case that hits through a different spelling, "
+         "or where Match and ServeHTTP differ because of the encoded path.",
+    exhaustive_note="thorough additionally enumerates every string of length <= 5 over {/, space, a, ., tab} (3906 strings) as registered path, as request path against /a, and under a group, in both strict modes",
+    trusted_base=["modelled, not verified: strings.TrimSpace/TrimLeft/TrimRight (as dw/de on code points, unicode.IsSpace set transcribed), net/url path decoding (input to the model)"],
+    assumptions=["paths are valid UTF-8 for the theorems' closed form; invalid bytes are passed through as pseudo code points in the tie"],
+)
